@@ -195,6 +195,10 @@ def check(P, R):
         if isinstance(e, ast.BinOp) and isinstance(e.op, ast.Add):
             flat(e.left)
             flat(e.right)
+        elif isinstance(e, ast.Call) and call_attr(e) == 'join' and isinstance(e.func.value, ast.Constant) and e.func.value.value in (b'', '') \
+                and len(e.args) == 1 and isinstance(e.args[0], (ast.Tuple, ast.List)):
+            for x in e.args[0].elts:            # b''.join((a, b, c, d)) is a + b + c + d
+                flat(x)
         else:
             parts.append(e)
     flat(r.value)
@@ -283,6 +287,14 @@ def check_compare(P, R, dec, call):
         return
     a, b = target.params[:2]
     rets = [n for n in walk_shallow(target.node) if isinstance(n, ast.Return)]
+    body_ = [st for st in target.node.body if not (isinstance(st, ast.Expr) and isinstance(st.value, ast.Constant))]
+    if len(body_) == 1 and isinstance(body_[0], ast.Return) and isinstance(body_[0].value, ast.Call) \
+            and dotted(body_[0].value.func) in ('hmac.compare_digest', 'compare_digest', 'secrets.compare_digest') \
+            and [src(x) for x in body_[0].value.args] in ([a, b], [b, a]):
+        # a thin wrapper of the library comparison
+        R.ob('C15.c', target, body_[0], True, text=f'{d}(a, b) = hmac.compare_digest(a, b)')
+        R.ob('C15.c', target, body_[0], True, text='no early exit (library)', nontrivial=False)
+        return
     has_len = False
     for r in rets:
         for x in ast.walk(r.value) if r.value is not None else []:
@@ -353,12 +365,25 @@ def check_get_cookie(P, R):
                 elif isinstance(e, ast.BoolOp):
                     for v_ in e.values:
                         collect(v_)
+                elif isinstance(e, ast.Call) and dotted(e.func) == 'bool' and len(e.args) == 1:
+                    collect(e.args[0])
                 else:
                     leaves.append(e)
-            collect(tn.ast)
+            # a flag computed before (`signed = bool(secret and value)`) stands for its expression
+            texp = T.expand(f, tn.ast, tn, keep=tuple(f.params) + tuple(d_.name for n_ in g.nodes for d_ in rd.gen.get(n_, []) if d_.value is not None and isinstance(d_.value, ast.Call)
+                                                                        and call_attr(d_.value) == 'get'))
+
+            def unbool(e):
+                if isinstance(e, ast.Call) and dotted(e.func) == 'bool' and len(e.args) == 1:
+                    return unbool(e.args[0])
+                if isinstance(e, ast.UnaryOp) and isinstance(e.op, ast.Not):
+                    return ast.UnaryOp(op=ast.Not(), operand=unbool(e.operand))
+                return e
+            texp = unbool(texp)
+            collect(texp)
             seen_secret = seen_secret or any(isinstance(x, ast.Name) and x.id == secret_p for x in leaves)
             extra += [x for x in leaves if not isinstance(x, ast.Name)]
-            tv = T.truth(tn.ast, atom)
+            tv = T.truth(texp, atom)
             if tv is not None and (('true' if tv else 'false') != lab):
                 extra.append(tn.ast)
         if ctl:
